@@ -317,3 +317,39 @@ Proof.
   split; [repeat constructor; cbn; discriminate|]. split; [repeat constructor|].
   split; vm_compute; reflexivity.
 Qed.
+
+(* ---------------- source tie ----------------
+   the index arithmetic of helpers.parallel_merging / _merge_worker / _fill_queue as regenerated from the source AST on
+   this run (generated/KernelsHelpers.v, Python ints = Z): the test of the while loop, the number of merger processes of
+   a round, the elements of sketch_array a merger is given (receiver = the parameter of _merge_worker that calls
+   .merge(<the other>)), Python's range(start, stop, step) of the survivors (KernelTieHelpers.py_range) and the element
+   kept for each, the element returned, the number of poison pills *)
+From Sketchnu Require KernelsHelpers KernelTieHelpers.
+Theorem C08_helpers_source_tie :
+  (forall n : nat, KernelsHelpers.gen_pm_continue (Z.of_nat n) = (1 <? n)%nat) /\
+  (forall n : nat, Z.to_nat (KernelsHelpers.gen_pm_n_pairs (Z.of_nat n)) = (n / 2)%nat) /\
+  (forall i : nat, Z.to_nat (KernelsHelpers.gen_pm_receiver (Z.of_nat i)) = (2 * i)%nat /\
+                   Z.to_nat (KernelsHelpers.gen_pm_other (Z.of_nat i)) = (2 * i + 1)%nat) /\
+  (forall n : nat, let '(a, b, c) := KernelsHelpers.gen_pm_keep_range (Z.of_nat n) in
+     map (fun z => Z.to_nat (KernelsHelpers.gen_pm_keep_index z)) (KernelTieHelpers.py_range a b c)
+     = map (fun j => (2 * j)%nat) (seq 0 ((n + 1) / 2))) /\
+  KernelsHelpers.gen_pm_result_index = 0 /\
+  (forall n : Z, KernelsHelpers.gen_fill_pills n = n).
+Proof. exact KernelTieHelpers.tie_helpers_pieces. Qed.
+Print Assumptions C08_helpers_source_tie.
+
+(* the loop of parallel_merging run with the generated test, counts, indices and range (KernelTieHelpers.pm_loop_gen)
+   is the model's pm, for every sketch type, every merge and every array of sketches *)
+Theorem C08_pm_source_tie : forall (Sk : Type) (merge : Sk -> Sk -> Sk) (l : list Sk),
+  KernelTieHelpers.pm_loop_gen Sk merge (length l) l = pm Sk merge l.
+Proof. exact KernelTieHelpers.tie_pm. Qed.
+Print Assumptions C08_pm_source_tie.
+
+Example C08_helpers_source_tie_nonvacuous :
+  map (fun n => (KernelsHelpers.gen_pm_continue n, KernelsHelpers.gen_pm_n_pairs n, KernelsHelpers.gen_pm_keep_range n)) [1; 2; 5]
+  = [(false, 0, (0, 1, 2)); (true, 1, (0, 2, 2)); (true, 2, (0, 5, 2))] /\
+  KernelTieHelpers.py_range 0 5 2 = [0; 2; 4] /\ KernelTieHelpers.py_range 0 0 2 = [] /\
+  (KernelsHelpers.gen_pm_receiver 3, KernelsHelpers.gen_pm_other 3) = (6, 7) /\
+  KernelTieHelpers.pm_loop_gen (list Z) (fun a b => a ++ b) 5 [[1]; [2]; [3]; [4]; [5]] = Some [1; 2; 3; 4; 5] /\
+  KernelsHelpers.gen_fill_pills 3 = 3.
+Proof. vm_compute. repeat split; reflexivity. Qed.
